@@ -26,7 +26,15 @@ def render(rnd, depth):
     return '(' + pad + sep.join(items) + pad + ')'
 
 
+FIXED = ['18446744073709551615', '18446744073709551616', '99999999999999999999999', '#xFFFFFFFFFFFFFFFF', '#x10000000000000000',
+         '#xffffffffffffffffff', '007', '#x00ff', '#X1f', '#x', '#', '#xg', '(#x)', '1a', '-1', '+1', 'a(b)c', '(a(b)c)', '(1(2))', '(()())',
+         '((a)(b))', '(a . b)', "'a", '"s"', '(a;b)', 'a)', '()', '( )', '(((((((((())))))))))', '9' * 40, 'z' * 120, '#x' + 'A' * 40,
+         '(' + 'q ' * 60 + ')', '0', '00', '(0 00 000)', '#x0', '4294967295', '4294967296', '65535 65536', '(65536)']
+
+
 def e2(rnd, count):
+    # numbers at and beyond 2^64 (the reader reduces modulo 2^64), leading zeros, lone prefixes, atoms glued to parentheses ...
+    yield ['parse %d %s' % (len(s), ' '.join(str(ord(c)) for c in s)) for s in FIXED]
     for _ in range(count):
         sc = []
         for _ in range(200):
